@@ -285,6 +285,10 @@ func (e *edge) split(bt *Tree, splitOn int, fullKey []byte, key []byte, vals []e
 	if splitOn != len(key) {
 		newLeaf = &node{key: fullKey}
 		newNode.edges = append(newNode.edges, &edge{key[splitOn:], newLeaf})
+	} else {
+		// the new key is a prefix of the existing edge: the intermediate node is
+		// itself the leaf for the new key and has to carry it
+		newNode.key = fullKey
 	}
 	e.label = e.label[:splitOn]
 	e.target = newNode
